@@ -71,6 +71,23 @@ pub fn main(o: &Opts) -> i32 {
                         }
                     }
                 }
+                // windows without ORDER BY: any rows of the full result, but exactly the right number of them; bare variables are
+                // returned (no projection materialises the chunk) and the predicates are ones a FilterOperator evaluates
+                if !pat.contains("n1") {
+                    for (wp, ret) in [("n0.k % 2 = 0", "n0"), ("n0.k + 0 >= 1", "n0"), ("n0.s = 'a'", "n0, n0.k"), ("n0.k > 0", "n0"), ("n0.k % 2 = 0", "id(n0)")] {
+                        if big && rng.random_range(0..2) != 0 { continue; }
+                        let Some(full) = rows(g, lang, &format!("MATCH {pat} WHERE {wp} RETURN {ret}")) else { continue };
+                        let m = full.as_array().map(|a| a.len()).unwrap_or(0) as i64;
+                        for (s, l) in [(1i64, -1i64), (2, -1), (m / 2, -1), (m - 1, -1), (m, -1), (1, 1), (2, 3), (m / 2, 2), (0, m / 2 + 1), (3, 3)] {
+                            if s < 0 || (s == 0 && l < 0) { continue; }
+                            let mut t = format!("MATCH {pat} WHERE {wp} RETURN {ret}");
+                            if s > 0 { t += &format!(" SKIP {s}"); }
+                            if l >= 0 { t += &format!(" LIMIT {l}"); }
+                            let Some(win) = rows(g, lang, &t) else { continue };
+                            emit(&mut out, json!({"kind": "uwindow", "full": full, "win": win, "skip": s, "limit": l, "lang": lang}), t);
+                        }
+                    }
+                }
                 // grouped aggregation: one row per distinct key, with its multiplicity (also across the 2048-row output chunk boundary)
                 if !pat.contains("n1") {
                     for key in ["n0.u", "n0.k"] {
